@@ -135,13 +135,18 @@ def programs(tier: str):
                         for cctx in ("none", "scope", "scope+updated"):
                             yield {"family": "asynchronous", "sig": sig, "form": fi, "kind": kind, "outcome": outcome, "executor": executor, "ctx": cctx}
             for inp in ("sync", "async"):
-                for outcome in ("value", "raise", "raise_base", "awaitable"):
+                for outcome in ("value", "raise", "raise_base", "awaitable", "eq-all", "eq-nobool"):
                     if outcome == "awaitable" and inp == "async":
+                        continue
+                    if outcome.startswith("eq-") and fi != 0:
                         continue
                     yield {"family": "wrap_async", "sig": sig, "form": fi, "input": inp, "outcome": outcome}
                     ctxs = ("none", "scope") if tier == "quick" else ("none", "scope", "scope+updated", "nested")
                     for cctx in ctxs:
                         yield {"family": "traced", "sig": sig, "form": fi, "input": inp, "outcome": outcome, "ctx": cctx}
+    for kind in ("function", "method"):
+        for executor in ("default", "explicit"):
+            yield {"family": "reuse", "kind": kind, "executor": executor}
     for pair in (
         "traced-over-retry",
         "cache-over-retry",
@@ -200,10 +205,62 @@ def _expected_bound(fn, args, kwargs, receiver=None) -> dict:
     return d
 
 
+def _reuse(program, ch: Chooser) -> Result:
+    """one wrapper object called in three consecutive event loops"""
+    viols: list[dict] = []
+    results: list = []
+    holder: dict = {}
+    trace: list = []
+    for round_no in range(3):
+        w = World(ch)
+        executor = GatedExecutor()
+        w.loop.set_default_executor(executor)
+        try:
+            if round_no == 0:
+
+                def plain(a):
+                    return ("r", a)
+
+                class Owner:
+                    @asynchronous
+                    def m(self, a):
+                        return ("r", a)
+
+                # an explicit executor belongs to the first world: use the default path for methods
+                holder["fn"] = asynchronous(plain) if program["kind"] == "function" else Owner().m
+            got: dict = {}
+
+            async def call():
+                try:
+                    got["out"] = await holder["fn"](round_no)
+                except BaseException as exc:  # noqa: BLE001
+                    got["out"] = f"{type(exc).__name__}: {exc}"[:80]
+
+            w.extra_actions = lambda: [
+                Action("release", f"w{rec['n']}", lambda rec=rec: executor.release(rec)) for rec in executor.pending if not rec["released"]
+            ]
+            t = w.task(call(), name="driver")
+            try:
+                w.run()
+            except Livelock:
+                pass
+            trace.extend(w.trace)
+            results.append(got.get("out", "pending" if not t.done() else None))
+        finally:
+            executor.drain()
+            w.close()
+    want = [("r", 0), ("r", 1), ("r", 2)]
+    if [tuple(r) if isinstance(r, (tuple, list)) else r for r in results] != want:
+        viols.append(viol("transparent", f"reused-in-another-loop/{program['kind']}", want, results))
+    return Result(f"reuse/{program['kind']}", True, viols, {"results": [list(r) if isinstance(r, tuple) else r for r in results], "trace": trace}, steps=3)
+
+
 def execute(program, ch: Chooser) -> Result:  # noqa: C901, PLR0912, PLR0915
     fam = program["family"]
     if fam == "meta":
         return _meta(program)
+    if fam == "reuse":
+        return _reuse(program, ch)
     _cap.records.clear()
     sig, fi = program["sig"], program["form"]
     args, kwargs = SIGS[sig][1][fi]
@@ -234,9 +291,9 @@ def execute(program, ch: Chooser) -> Result:  # noqa: C901, PLR0912, PLR0915
         cm = ctx.updated(a9)
         cm.__enter__()
         leak_cms.append(cm)
-        if outcome == "awaitable":
-            return awaitable_result  # an awaitable object returned *as a value* by a sync function
-        if outcome not in ("value", "awaitable"):
+        if outcome in special:
+            return special[outcome]  # a result object of an unusual type, returned as a value
+        if outcome not in ("value", "awaitable", "eq-all", "eq-nobool"):
             raise boom
         return RESULT
 
@@ -246,7 +303,30 @@ def execute(program, ch: Chooser) -> Result:  # noqa: C901, PLR0912, PLR0915
         def __await__(self):
             return iter(())
 
+    class EqAll:
+        """a result that claims to be equal to everything"""
+
+        def __eq__(self, other):
+            return True
+
+        def __hash__(self):
+            return 3
+
+    class EqNoBool:
+        """a result whose == returns an object that refuses truth testing (array style)"""
+
+        class _Mask:
+            def __bool__(self):
+                raise ValueError("truth value of a mask is ambiguous")
+
+        def __eq__(self, other):
+            return EqNoBool._Mask()
+
+        def __hash__(self):
+            return 4
+
     awaitable_result = AwaitableValue()
+    special = {"eq-all": EqAll(), "eq-nobool": EqNoBool(), "awaitable": awaitable_result}
     hb: dict = {"steps": 0}
     got: dict = {}
     completions: dict = {}
@@ -343,8 +423,8 @@ def execute(program, ch: Chooser) -> Result:  # noqa: C901, PLR0912, PLR0915
         if out is not None:
             if out[0] == "other":
                 viols.append(viol("transparent", f"foreign-exception/{witness}", "the function's own outcome", out[1]))
-            elif outcome == "awaitable" and not (out[0] == "value" and out[1] is awaitable_result):
-                viols.append(viol("transparent", f"awaitable-result/{witness}", "the same (awaitable) result object", f"{out[0]}: {type(out[1]).__name__}"))
+            elif outcome in special and not (out[0] == "value" and out[1] is special[outcome]):
+                viols.append(viol("transparent", f"{outcome}-result/{witness}", f"the same result object ({outcome})", f"{out[0]}: {type(out[1]).__name__}"))
             elif outcome == "value" and not (out[0] == "value" and out[1] is RESULT):
                 viols.append(viol("transparent", f"result/{witness}", "the same result object", out[0]))
             elif outcome in ("raise", "raise_base") and not (out[0] == "raised" and out[1] is boom):
@@ -380,7 +460,7 @@ def execute(program, ch: Chooser) -> Result:  # noqa: C901, PLR0912, PLR0915
                     want_args = ArgumentsTrace.of(*args, **kwargs)
                     if len(at) != 1 or not (at[0] == want_args):
                         viols.append(viol("traced-arguments", witness, str(want_args), [str(x) for x in at]))
-                    want_res = awaitable_result if outcome == "awaitable" else (boom if outcome != "value" else RESULT)
+                    want_res = special[outcome] if outcome in special else (boom if outcome != "value" else RESULT)
                     if len(rt) != 1 or rt[0].result is not want_res:
                         viols.append(viol("traced-result", witness, "the produced value / exception", [str(x) for x in rt]))
         for cm in leak_cms:
